@@ -211,7 +211,7 @@ func (r *Runner) monBln(s *Step, rep *Reply) {
 			continue
 		}
 		b := r.blnTypeOf(c)
-		if b == nil || !pinCPU {
+		if b == nil || !pinCPU || r.NoShadow {
 			continue
 		}
 		want := SetOf(b.Cpus).Union(SetOf(b.SharedIdleCpus))
